@@ -110,7 +110,11 @@ func lengthPrefixed(msgs [][]byte) []byte {
 func runE2E(c *Ctx, e e2eCase, servers map[string]*httptest.Server) {
 	var seen [][]byte
 	var mu sync.Mutex
-	hopts := []connect.HandlerOption{connect.WithCodec(rawCodec{"raw"}), connect.WithCompression("rle", newRLEDecompressor, newRLECompressor), connect.WithCompressMinBytes(e.min)}
+	codecName := "raw"
+	if e.sendComp == "X-Rle" {
+		codecName = "Raw-V2" // … and a codec whose registered name has upper-case letters, on both sides
+	}
+	hopts := []connect.HandlerOption{connect.WithCodec(rawCodec{codecName}), connect.WithCompression("rle", newRLEDecompressor, newRLECompressor), connect.WithCompressMinBytes(e.min)}
 	if e.sendComp == "X-Rle" { // an algorithm registered under a name with upper-case letters, on both sides
 		hopts = append(hopts, connect.WithCompression("X-Rle", newRLEDecompressor, newRLECompressor))
 	}
@@ -128,7 +132,7 @@ func runE2E(c *Ctx, e e2eCase, servers map[string]*httptest.Server) {
 		hc = srv.Client()
 		url = srv.URL + "/s/m"
 	}
-	copts := []connect.ClientOption{connect.WithCodec(rawCodec{"raw"}), connect.WithAcceptCompression("rle", newRLEDecompressor, newRLECompressor), connect.WithCompressMinBytes(e.min)}
+	copts := []connect.ClientOption{connect.WithCodec(rawCodec{codecName}), connect.WithAcceptCompression("rle", newRLEDecompressor, newRLECompressor), connect.WithCompressMinBytes(e.min)}
 	if e.sendComp == "X-Rle" {
 		copts = append(copts, connect.WithAcceptCompression("X-Rle", newRLEDecompressor, newRLECompressor))
 	}
